@@ -12,6 +12,7 @@ side condition can be checked syntactically; anything else is left alone (and th
       caller: h's statements are spliced in front and the call replaced by the returned expression;
   2. `for v in (e1, .., en):` over a tuple / list literal of side-effect-free expressions is unrolled;
   3. a guard clause `if c: A; return` followed by R (in a method that returns nothing) becomes `if c: A  else: R`;
+  3b. `if not c: pass else: B` is `if c: B`; at the head of a loop body `if not c: continue` followed by R is `if c: R`;
   4. a local bound ONCE to a side-effect-free expression whose ingredients are not re-bound afterwards (`order = cancel.order`,
      `previous_time = self.time - 1`, `book = (self.buy_order_book if order.is_buy else self.sell_order_book)`) is substituted away;
   4b. a local bound to a comparison or a subscript and read only by the statement that immediately follows is moved into it;
@@ -261,6 +262,36 @@ def guards(body):
             s.orelse = guards(s.orelse)
         elif isinstance(s, ast.Return) and s.value is None and i == len(body) - 1:
             continue
+        out.append(s)
+    return out
+
+
+def _neg(e):
+    """the condition whose negation is e, when e is written `not <c>`"""
+    return e.operand if isinstance(e, ast.UnaryOp) and isinstance(e.op, ast.Not) else None
+
+
+def flips(body, in_loop=False):
+    """step 3b: `if not c: pass  else: B` is `if c: B`; at the head of a loop body, `if not c: continue` followed by R is `if c: R`
+    (`if c2: continue` with c2 not a negation becomes `if c2: pass else: R` only when R is non-empty - left alone here)"""
+    out = []
+    for i, s in enumerate(body):
+        if isinstance(s, ast.If):
+            s = copy.deepcopy(s)
+            rest = body[i + 1:]
+            if (in_loop and _neg(s.test) is not None and not s.orelse and len(s.body) == 1 and isinstance(s.body[0], ast.Continue) and rest):
+                s.test = _neg(s.test)
+                s.body = flips(rest, in_loop)
+                out.append(s)
+                return out
+            s.body = flips(s.body, in_loop)
+            s.orelse = flips(s.orelse, in_loop)
+            if _neg(s.test) is not None and s.orelse and all(isinstance(q, ast.Pass) for q in s.body):
+                s.test = _neg(s.test)
+                s.body, s.orelse = s.orelse, []
+        elif isinstance(s, ast.For):
+            s = copy.deepcopy(s)
+            s.body = flips(s.body, True)
         out.append(s)
     return out
 
